@@ -366,7 +366,7 @@ Proof.
   cbn [ref_wf] in Hwf. rewrite !andb_true_iff in Hwf. destruct Hwf as ((((W1 & W2) & _) & _) & _).
   assert (Hcf : colon_free p) by (apply (forallb_colon_free _ _ W1); reflexivity).
   cbn [rc_ref] in Hrc. rewrite El in Hrc.
-  destruct (when (str_eqb (render_ref (IPre p l)) (Str "rdf:type") && negb (str_eqb ns rdf_ns)) RC_dt_hardwired) eqn:C2;
+  destruct (when (str_eqb (render_ref (IPre p l)) (Str "rdf:type") && negb (str_eqb ns rdf_ns)) RC_dt_custom_prefix) eqn:C2;
     [|discriminate].
   apply when_nil in C2.
   change (render_ref (IPre p l)) with (p ++ Str ":" ++ l) in *.
